@@ -306,3 +306,31 @@ func VerifC04AfterChange() {
 	}
 	verifCover("end")
 }
+
+// VerifC04Tokens: the value and timestamp tokens are forwarded byte for byte as received, in every numeric
+// spelling the validation accepts (exponents, hex floats, signs, leading zeros, trailing fraction, fractional
+// timestamps): concrete spellings (strconv.ParseFloat runs natively on them), a free name of 1..2 bytes and one
+// rewriter; every pair of a value spelling and a timestamp spelling.
+func VerifC04Tokens() {
+	t := verifNewTable(m20.NoneLegacy, m20.NoneM20, false)
+	all, _ := matcher.New("", "", "", "", "", "")
+	r := &verifCapRoute{key: "r", m: all}
+	t.AddRoute(r)
+	rw, err := rewriter.New("a", "bb", "", -1)
+	if err != nil {
+		panic(err)
+	}
+	t.AddRewriter(rw)
+	spell := []string{"1e3", "0x1p-2", "+5", "1.50", "007", "1500000002.0", "1.5e9", "-0", ".5", "5.", "01500000004", "+1500000005", "1500000003.75"}
+	val := spell[verifChoice("value-spelling", len(spell))]
+	ts := spell[verifChoice("timestamp-spelling", len(spell))]
+	name := verifName(1 + verifChoice("namelen", 2))
+	line := append(append([]byte{}, name...), []byte(" "+val+" "+ts)...)
+	t.Dispatch(line)
+	want := string(verifSpecReplace(name, []byte("a"), []byte("bb"), nil, -1)) + " " + val + " " + ts
+	verifAssert(len(r.got) == 1, "delivered-once")
+	if len(r.got) == 1 {
+		verifAssert(string(r.got[0]) == want, "value-and-timestamp-tokens-forwarded-byte-for-byte")
+	}
+	verifCover("end")
+}
